@@ -89,9 +89,8 @@ def lean_str(s: str) -> str:
     return '"' + s.replace("\\", "\\\\").replace('"', '\\"') + '"'
 
 
-def extract():
-    out = {}
-    # ---- lpinterface / common -------------------------------------------------------
+def _sec_lpinterface_common(out):
+    """lpinterface / common"""
     lp = parse("aldy/lpinterface.py")
     common = parse("aldy/common.py")
     out["SOLVER_PRECISION"] = module_const(lp, "SOLVER_PRECISON")
@@ -134,7 +133,9 @@ def extract():
     cut = one(find_all(esc, lambda n: isinstance(n, ast.Subscript) and isinstance(n.slice, ast.Slice)), "escape_name cut")
     out["ESCAPE_MAXLEN"] = int(num(cut.slice.upper))
 
-    # ---- profile defaults ------------------------------------------------------------
+
+def _sec_profile_defaults(out):
+    """profile defaults"""
     prof = parse("aldy/profile.py")
     init = func(prof, "Profile", "__init__")
     params = []
@@ -172,7 +173,9 @@ def extract():
     else:
         out["BOOL_FALSE_SPELLINGS"] = None  # different parsing scheme (e.g. after a fix)
 
-    # ---- genotype.py -------------------------------------------------------------------
+
+def _sec_genotype_py(out):
+    """genotype.py"""
     gt = parse("aldy/genotype.py")
     g = func(gt, "genotype")
     out["SLACK"] = local_const(g, "SLACK")
@@ -203,7 +206,9 @@ def extract():
                      and src(n.targets[0]) == "params['min_coverage']")
     out["EXOME_MIN_COVERAGE"] = num(one(exome, "exome min_coverage").value)
 
-    # ---- cn.py -----------------------------------------------------------------------------
+
+def _sec_cn_py(out):
+    """cn.py"""
     cn = parse("aldy/cn.py")
     solve = func(cn, "solve_cn_model")
     pp = [n for n in ast.walk(solve) if isinstance(n, (ast.Assign, ast.AugAssign))
@@ -234,7 +239,9 @@ def extract():
                        and isinstance(n.keys[0].value, str) and n.keys[0].value.startswith("E_")), "cn pce coefficient key")
     out["CN_PCE_VAR"] = pce.keys[0].value
 
-    # ---- major.py ----------------------------------------------------------------------------
+
+def _sec_major_py(out):
+    """major.py"""
     mj = parse("aldy/major.py")
     sm = func(mj, "solve_major_model")
     aug = find_all(sm, lambda n: isinstance(n, ast.AugAssign) and src(n.target) == "objective" and isinstance(n.value, ast.BinOp)
@@ -244,7 +251,9 @@ def extract():
     half = find_all(fa, lambda n: isinstance(n, ast.BinOp) and isinstance(n.op, ast.Add) and "position_cn" in src(n.left))
     out["MAJOR_FILTER_CN_ADD"] = num(one(half, "major: position_cn + K").right)
 
-    # ---- minor.py ---------------------------------------------------------------------------
+
+def _sec_minor_py(out):
+    """minor.py"""
     mi = parse("aldy/minor.py")
     smi = func(mi, "solve_minor_model")
     tb = find_all(smi, lambda n: isinstance(n, ast.BinOp) and isinstance(n.op, ast.Div) and src(n.left) == "cnt" and isinstance(n.right, ast.Constant))
@@ -289,16 +298,26 @@ def extract():
     half = find_all(em, lambda n: isinstance(n, ast.BinOp) and isinstance(n.op, ast.Add) and "position_cn" in src(n.left))
     out["MINOR_FILTER_CN_ADD"] = num(one(half, "minor: position_cn + K").right)
 
-    # ---- sam.py --------------------------------------------------------------------------------
+
+def _sec_name_order(out):
+    """solutions.py: get_major_name"""
     # solutions.py: are the added variants of a name ordered by RefSeq position (a `key=` for the sort)?
     so = parse("aldy/solutions.py")
     gmn = func(so, "MinorSolution", "get_major_name")
     srt2 = [n for n in ast.walk(gmn) if isinstance(n, ast.Call) and src(n.func) == "sorted" and "added" in src(n.args[0])]
     out["NAME_ORDER_BY_REFSEQ"] = any(any(kw.arg == "key" for kw in n.keywords) for n in srt2)
+
+
+def _sec_loader(out):
+    """gene.py: process_mutation"""
     # gene.py: does the loader refuse variants whose replaced bases are not contiguous on the genome?
     ge = parse("aldy/gene.py")
     pm = func(ge, "Gene", "_init_alleles", "process_mutation")
     out["LOADER_CHECKS_CONTIGUITY"] = any(isinstance(n, ast.Call) and src(n.func).endswith("_is_contiguous") for n in ast.walk(pm))
+
+
+def _sec_parse_read(out):
+    """sam.py: _parse_read"""
     sam = parse("aldy/sam.py")
     bq = func(sam, "Sample", "_parse_read", "bin_quality")
     table = []
@@ -328,12 +347,22 @@ def extract():
     eqs = {int(num(n.comparators[0])): n for n in find_all(pr, lambda n: isinstance(n, ast.Compare) and src(n.left) == "op" and isinstance(n.ops[0], ast.Eq))}
     if sorted(eqs) != [1, 2, 4]:
         raise ExtractorMismatch("_parse_read: op == 2 / 1 / 4 branches")
+
+
+def _sec_depth_walkers(out):
+    """sam.py / profile.py: depth walkers"""
+    sam = parse("aldy/sam.py")
     cnr = func(sam, "Sample", "_load_cn_region")
     opsets = find_all(cnr, lambda n: isinstance(n, ast.Compare) and src(n.left) == "op" and isinstance(n.ops[0], ast.In))
     out["CNREGION_DEPTH_OPS"] = [int(num(e)) for e in one(opsets, "_load_cn_region op in [...]").comparators[0].elts]
-    gp = func(prof, "Profile", "get_sam_profile_data")
+    gp = func(parse("aldy/profile.py"), "Profile", "get_sam_profile_data")
     opsets = find_all(gp, lambda n: isinstance(n, ast.Compare) and src(n.left) == "op" and isinstance(n.ops[0], ast.In))
     out["PROFILE_MATCH_OPS"] = [int(num(e)) for e in one(opsets, "profile op in [...]").comparators[0].elts]
+
+
+def _sec_load_vcf(out):
+    """sam.py: _load_vcf"""
+    sam = parse("aldy/sam.py")
     lv = func(sam, "Sample", "_load_vcf")
     mults = find_all(lv, lambda n: isinstance(n, ast.BinOp) and isinstance(n.op, ast.Mult) and isinstance(n.left, ast.List)
                      and src(n.left) == "[(40, 40)]")
@@ -352,11 +381,18 @@ def extract():
              and ("'_'" in src(n.test) or '"_"' in src(n.test))]
     sk = one(skips, "_load_vcf: skip test for reference alleles")
     out["VCF_SKIPS_NONE"] = "op is None" in src(sk.test) or "op == None" in src(sk.test) or "not op" in src(sk.test)
+
+
+def _sec_sample_init(out):
+    """sam.py: Sample.__init__"""
+    sam = parse("aldy/sam.py")
     si = func(sam, "Sample", "__init__")
     dg = find_all(si, lambda n: isinstance(n, ast.Compare) and "diploid_avg_coverage" in src(n.left) and isinstance(n.ops[0], ast.Lt))
     out["DIPLOID_MIN_COV"] = num(one(dg, "Sample: diploid_avg_coverage() < K").comparators[0])
 
-    # ---- coverage.py ---------------------------------------------------------------------------
+
+def _sec_coverage_py(out):
+    """coverage.py"""
     cov = parse("aldy/coverage.py")
     ac = func(cov, "Coverage", "average_coverage")
     add = find_all(ac, lambda n: isinstance(n, ast.BinOp) and isinstance(n.op, ast.Add) and "len(self._coverage)" in src(n.left))
@@ -364,7 +400,26 @@ def extract():
     nc = func(cov, "Coverage", "_normalize_coverage")
     div = find_all(nc, lambda n: isinstance(n, ast.AugAssign) and src(n.target) == "p" and isinstance(n.op, ast.Div))
     out["PROFILE_COPIES"] = num(one(div, "_normalize_coverage: p /= K").value)
-    return out
+
+
+SECTIONS = [(_sec_lpinterface_common, "lpinterface / common"), (_sec_profile_defaults, "profile defaults"), (_sec_genotype_py, "genotype.py"), (_sec_cn_py, "cn.py"), (_sec_major_py, "major.py"), (_sec_minor_py, "minor.py"), (_sec_name_order, "solutions.py: get_major_name"), (_sec_loader, "gene.py: process_mutation"), (_sec_parse_read, "sam.py: _parse_read"), (_sec_depth_walkers, "sam.py / profile.py: depth walkers"), (_sec_load_vcf, "sam.py: _load_vcf"), (_sec_sample_init, "sam.py: Sample.__init__"), (_sec_coverage_py, "coverage.py")]
+
+
+def extract():
+    """every section on its own: a section whose source no longer has the expected shape is reported and
+    keeps the values of the last good extraction (so that the Lean project still builds); only the checks
+    that use one of its constants treat this as a broken obligation"""
+    out, failed = {}, {}
+    for fn, title in SECTIONS:
+        part = {}
+        try:
+            fn(part)
+            out.update(part)
+        except ExtractorMismatch as e:
+            failed[title] = str(e)
+        except SyntaxError as e:
+            failed[title] = f"source does not parse: {e}"
+    return out, failed
 
 
 def emit(c) -> str:
@@ -443,16 +498,46 @@ def emit(c) -> str:
     return "\n".join(L) + "\n"
 
 
+LAST_GOOD = os.path.join(os.path.dirname(os.path.abspath(__file__)), "constants_last_good.json")
+
+
+def _enc(x):
+    if isinstance(x, Fraction):
+        return {"__frac__": f"{x.numerator}/{x.denominator}"}
+    if isinstance(x, (list, tuple)):
+        return [_enc(v) for v in x]
+    if isinstance(x, dict):
+        return {"__dict__": [[_enc(k), _enc(v)] for k, v in x.items()]}
+    return x
+
+
+def _dec(x):
+    if isinstance(x, dict) and "__frac__" in x:
+        return Fraction(x["__frac__"])
+    if isinstance(x, dict) and "__dict__" in x:
+        return {(_dec(k) if not isinstance(_dec(k), list) else tuple(_dec(k))): _dec(v) for k, v in x["__dict__"]}
+    if isinstance(x, list):
+        return [_dec(v) for v in x]
+    return x
+
+
 def main():
+    import json
     dst = sys.argv[1] if len(sys.argv) > 1 else os.path.join(os.path.dirname(__file__), "..", "lean", "Aldy", "Generated", "Constants.lean")
-    try:
-        text = emit(extract())
-    except ExtractorMismatch as e:
-        print(f"extractor-mismatch: {e}")
-        sys.exit(3)
-    except SyntaxError as e:
-        print(f"extractor-mismatch: source does not parse: {e}")
-        sys.exit(3)
+    out, failed = extract()
+    status = {"failed": {}, "stale_constants": []}
+    if failed:
+        try:
+            with open(LAST_GOOD) as f:
+                good = _dec(json.load(f))
+        except Exception as e:
+            print(f"extractor-mismatch: {failed}; no last good extraction to fall back on ({e})")
+            sys.exit(4)
+        stale = [k for k in good if k not in out]
+        for k in stale:
+            out[k] = good[k]
+        status = {"failed": failed, "stale_constants": stale}
+    text = emit(out)
     old = None
     if os.path.exists(dst):
         with open(dst) as f:
@@ -463,6 +548,17 @@ def main():
         print("constants: regenerated (changed)")
     else:
         print("constants: unchanged")
+    st = os.path.join(os.path.dirname(dst), "..", "..", ".lake", "extract_status.json")
+    os.makedirs(os.path.dirname(st), exist_ok=True)
+    with open(st, "w") as f:
+        json.dump(status, f)
+    if failed:
+        for sec, msg in failed.items():
+            print(f"extractor-mismatch [{sec}]: {msg}")
+        sys.exit(3)
+    if os.environ.get("VERIF_UPDATE_LAST_GOOD") == "1":
+        with open(LAST_GOOD, "w") as f:
+            json.dump(_enc(out), f, indent=0, sort_keys=True)
 
 
 if __name__ == "__main__":
